@@ -283,3 +283,13 @@ func Param(name string, def int) int {
 	}
 	return def
 }
+
+// MatchGoRegex is regexp.MatchString(pattern, s) (the pattern is translated to
+// an SMT regular language under the symbolic executor).
+func MatchGoRegex(s string, pattern string) bool {
+	m, err := regexpMatch(pattern, s)
+	if err != nil {
+		panic(err)
+	}
+	return m
+}
